@@ -22,14 +22,150 @@ fn main() {
         Some("map") => {
             let map = Beatmap::from_path(&args[2]).expect("decode");
             println!("suspicion: {:?}", map.check_suspicion());
+            std::panic::set_hook(Box::new(|_| {}));
+            let mods: u32 = args.get(3).and_then(|s| s.parse().ok()).unwrap_or(0);
             for mode in [GameMode::Osu, GameMode::Taiko, GameMode::Catch, GameMode::Mania] {
-                let Ok(conv) = map.clone().convert(mode, &Default::default()) else {
+                let Ok(conv) = map.clone().convert(mode, &mods.into()) else {
                     println!("{mode:?}: not convertible");
                     continue;
                 };
-                let d = Difficulty::new().calculate(&conv);
-                println!("{mode:?}: stars = {} finite = {}  {:?}", d.stars(), d.stars().is_finite(), d);
+                let bad = |s: &str| s.contains("NaN") || s.contains("inf");
+                let fields = |s: &str| -> String {
+                    s.split(", ").filter(|f| f.contains("NaN") || f.contains("inf") || f.contains(": -")).collect::<Vec<_>>().join(", ")
+                };
+                let c2 = conv.clone();
+                match std::panic::catch_unwind(move || Difficulty::new().mods(mods).calculate(&c2)) {
+                    Err(e) => println!("{mode:?}: calculate PANIC: {}", e.downcast_ref::<String>().cloned().or_else(|| e.downcast_ref::<&str>().map(|s| (*s).to_owned())).unwrap_or_default()),
+                    Ok(d) => {
+                        let dbg = format!("{d:?}");
+                        println!("{mode:?}: stars = {} ; suspicious fields: [{}]", d.stars(), fields(&dbg));
+                        let p = std::panic::catch_unwind(move || format!("{:?}", d.performance().calculate()));
+                        match p {
+                            Ok(s) => println!("   performance non-finite: {} [{}]", bad(&s), fields(&s)),
+                            Err(_) => println!("   performance PANIC"),
+                        }
+                    }
+                }
+                let c3 = conv.clone();
+                match std::panic::catch_unwind(move || format!("{:?}", Difficulty::new().mods(mods).strains(&c3))) {
+                    Err(_) => println!("   strains PANIC"),
+                    Ok(s) => println!("   strains non-finite: {} (NaN x{}, inf x{})", bad(&s), s.matches("NaN").count(), s.matches("inf").count()),
+                }
             }
+        }
+        Some("nansearch") => {
+            // random maps around a slider whose curve has a NaN vertex (O2: osu!-mode catmull cut, O3: arc
+            // with a non-finite centre): does anything non-finite / negative / a panic reach an output?
+            std::panic::set_hook(Box::new(|_| {}));
+            let n: u64 = args[2].parse().expect("maps");
+            let mut st: u64 = args.get(3).and_then(|s| s.parse().ok()).unwrap_or(1);
+            let mut next = move || {
+                st = st.wrapping_add(0x9E37_79B9_7F4A_7C15);
+                let mut z = st;
+                z = (z ^ (z >> 30)).wrapping_mul(0xBF58_476D_1CE4_E5B9);
+                z = (z ^ (z >> 27)).wrapping_mul(0x94D0_49BB_1331_11EB);
+                z ^ (z >> 31)
+            };
+            let mut classes: std::collections::BTreeMap<String, (u64, String)> = std::collections::BTreeMap::new();
+            for it in 0..n {
+                let kind = next() % 3; // 0, 1: O2; 2: O3
+                let version = [9u64, 7, 5, 14][(next() % 4) as usize];
+                let file_mode = if kind == 2 { [0u64, 0, 2][(next() % 3) as usize] } else { 0 };
+                let mut objs: Vec<String> = Vec::new();
+                let mut t = 1000i64;
+                let before = next() % 3;
+                for _ in 0..before {
+                    objs.push(format!("{},{},{t},1,0", next() % 512, next() % 384));
+                    t += 80 + (next() % 400) as i64;
+                }
+                let slides = 1 + next() % 4;
+                let (sx, sy);
+                if kind < 2 {
+                    sx = (next() % 512) as i64;
+                    sy = (next() % 384) as i64;
+                    let dx = 20 + (next() % 60) as i64;
+                    let len = 1 + next() % ((dx as u64 * 14 / 100).max(1));
+                    let tail = if next() % 2 == 0 { String::new() } else { format!("|{}:{}", sx + dx + 30, sy + 40) };
+                    objs.push(format!("{sx},{sy},{t},2,0,C|{sx}:{sy}|{sx}:{sy}|{}:{sy}{tail},{slides},{len}", sx + dx));
+                } else {
+                    let triples = [[(222420i64, 110053i64), (224765, 107662), (232416, 99861)], [(207524, -35352), (207775, -35096), (219174, -23469)]];
+                    let tr = triples[(next() % 2) as usize];
+                    sx = -110000 + (next() % 9000) as i64;
+                    sy = (next() % 20000) as i64;
+                    let p: Vec<String> = tr.iter().map(|q| format!("{}:{}", q.0 + sx, q.1 + sy)).collect();
+                    objs.push(format!("{sx},{sy},{t},2,0,L|{}:{sy}|P|{},{slides},{}", sx + 10, p.join("|"), [100u64, 300, 1000, 300000][(next() % 4) as usize]));
+                }
+                t += 60 + (next() % 600) as i64;
+                let after = next() % 5;
+                for _ in 0..after {
+                    let (x, y) = if next() % 3 == 0 { (sx.clamp(0, 512), sy.clamp(0, 384)) } else { ((next() % 512) as i64, (next() % 384) as i64) };
+                    if next() % 4 == 0 {
+                        objs.push(format!("{x},{y},{t},2,0,L|{}:{},{},{}", x + 60, y + 20, 1 + next() % 2, 60 + next() % 100));
+                    } else {
+                        objs.push(format!("{x},{y},{t},1,0"));
+                    }
+                    t += 40 + (next() % 500) as i64;
+                }
+                let text = format!(
+                    "osu file format v{version}\n\n[General]\nMode: {file_mode}\nStackLeniency: 0.{}\n\n[Difficulty]\nHPDrainRate:5\nCircleSize:{}\nOverallDifficulty:{}\nApproachRate:{}\nSliderMultiplier:{}\nSliderTickRate:{}\n\n[TimingPoints]\n0,{},4,2,0,100,1,0\n\n[HitObjects]\n{}\n",
+                    next() % 10,
+                    2 + next() % 6,
+                    2 + next() % 8,
+                    2 + next() % 9,
+                    ["0.4", "1.4", "3.6"][(next() % 3) as usize],
+                    [1u64, 2, 4, 8][(next() % 4) as usize],
+                    [250u64, 500, 1000][(next() % 3) as usize],
+                    objs.join("\n")
+                );
+                let Ok(map) = Beatmap::from_bytes(text.as_bytes()) else { continue };
+                if map.check_suspicion().is_err() {
+                    continue;
+                }
+                let mods: u32 = [0u32, 16, 8, 1024, 64, 2, 256, 16 + 64, 1024 + 8, 1 << 30, 16 + 1024][(next() % 11) as usize];
+                for mode in [GameMode::Osu, GameMode::Taiko, GameMode::Catch, GameMode::Mania] {
+                    let Ok(conv) = map.clone().convert(mode, &mods.into()) else { continue };
+                    let mut note = |class: String| {
+                        let e = classes.entry(class).or_insert((0, format!("mods={mods} {text}")));
+                        e.0 += 1;
+                    };
+                    let susp = |s: &str| -> Vec<String> {
+                        s.split(", ").filter(|f| f.contains("NaN") || f.contains("inf") || (f.contains(": -") && !f.contains(": -0.0") && !f.contains("ar: -"))).map(|f| f.split(':').next().unwrap_or("").trim_start_matches(|c: char| !c.is_alphabetic()).to_owned()).collect()
+                    };
+                    let c2 = conv.clone();
+                    match std::panic::catch_unwind(move || Difficulty::new().mods(mods).calculate(&c2)) {
+                        Err(e) => note(format!("k{kind} {mode:?} calculate PANIC: {}", e.downcast_ref::<String>().cloned().unwrap_or_default())),
+                        Ok(d) => {
+                            for f in susp(&format!("{d:?}")) {
+                                note(format!("k{kind} {mode:?} attribute {f}"));
+                            }
+                            match std::panic::catch_unwind(move || format!("{:?}", d.performance().calculate())) {
+                                Ok(s) => {
+                                    for f in susp(&s) {
+                                        note(format!("k{kind} {mode:?} performance {f}"));
+                                    }
+                                }
+                                Err(_) => note(format!("k{kind} {mode:?} performance PANIC")),
+                            }
+                        }
+                    }
+                    let c3 = conv.clone();
+                    match std::panic::catch_unwind(move || format!("{:?}", Difficulty::new().mods(mods).strains(&c3))) {
+                        Err(_) => note(format!("k{kind} {mode:?} strains PANIC")),
+                        Ok(s) => {
+                            if s.contains("NaN") || s.contains("inf") {
+                                note(format!("k{kind} {mode:?} strains non-finite"));
+                            }
+                        }
+                    }
+                }
+                if it % 2000 == 1999 {
+                    eprintln!("{} maps, classes {}", it + 1, classes.len());
+                }
+            }
+            for (c, (k, ex)) in &classes {
+                println!("CLASS {c}  x{k}\n   first example: {}", ex.replace('\n', "\\n"));
+            }
+            println!("{} classes", classes.len());
         }
         Some("sliders") => {
             let map = Beatmap::from_path(&args[2]).expect("decode");
@@ -53,6 +189,98 @@ fn main() {
             let t = std::time::Instant::now();
             let curve = Curve::new(MapMode::Osu, &pts, None, &mut CurveBuffers::default());
             println!("returned after {:?}: {} vertices, dist {}", t.elapsed(), curve.path().len(), curve.dist());
+        }
+        Some("arcsearch") => {
+            // integer-coordinate three-point arcs [b, c, d] (as the P segment of `L|a|P|b|c|d`) whose f32
+            // determinant test passes but whose `d` cancels to 0: non-finite centre. Prints the hits with
+            // the smallest coordinate magnitude.
+            let max: i64 = args[2].parse().expect("max coordinate");
+            let n: u64 = args[3].parse().expect("tries");
+            let mut st: u64 = args.get(4).and_then(|s| s.parse().ok()).unwrap_or(1);
+            let mut next = move || {
+                st = st.wrapping_add(0x9E37_79B9_7F4A_7C15);
+                let mut z = st;
+                z = (z ^ (z >> 30)).wrapping_mul(0xBF58_476D_1CE4_E5B9);
+                z = (z ^ (z >> 27)).wrapping_mul(0x94D0_49BB_1331_11EB);
+                z ^ (z >> 31)
+            };
+            let mut hits = 0u64;
+            let mut best: Option<(i64, [(i64, i64); 3])> = None;
+            for _ in 0..n {
+                let r = |m: i64, x: u64| (x % (2 * m as u64 + 1)) as i64 - m;
+                let b = (r(max, next()), r(max, next()));
+                let (ux, uy) = (r(60, next()), r(60, next()));
+                let (k1, k2) = (1 + (next() % 60) as i64, 61 + (next() % 200) as i64);
+                let c = (b.0 + k1 * ux + r(2, next()), b.1 + k1 * uy + r(2, next()));
+                let d = (b.0 + k2 * ux, b.1 + k2 * uy);
+                if [b, c, d].iter().any(|p| p.0.abs() > max || p.1.abs() > max) {
+                    continue;
+                }
+                let pts: Vec<PathControlPoint> = [b, c, d]
+                    .iter()
+                    .enumerate()
+                    .map(|(i, p)| PathControlPoint { pos: Pos::new(p.0 as f32, p.1 as f32), path_type: (i == 0).then_some(PathType::PERFECT_CURVE) })
+                    .collect();
+                let curve = Curve::new(MapMode::Osu, &pts, Some(100.0), &mut CurveBuffers::default());
+                if curve.path().iter().any(|p| !p.x.is_finite() || !p.y.is_finite()) || !curve.dist().is_finite() {
+                    hits += 1;
+                    let mag = [b, c, d].iter().map(|p| p.0.abs().max(p.1.abs())).max().unwrap_or(0);
+                    if best.is_none_or(|(m, _)| mag < m) {
+                        best = Some((mag, [b, c, d]));
+                        println!("hit: magnitude {mag} points {:?} dist {} path {:?}", [b, c, d], curve.dist(), &curve.path()[..curve.path().len().min(3)]);
+                    }
+                }
+            }
+            println!("{hits} non-finite arcs in {n} tries (max coordinate {max})");
+        }
+        Some("arcsearch2") => {
+            // targeted: lattice triples b, c = b + u, d = b + k u + w with cross(u, w) = +-1 (determinant
+            // +-1): the smallest coordinates at which `d` can cancel to 0 in f32
+            let max: i64 = args[2].parse().expect("max |relative coordinate|");
+            let n: u64 = args[3].parse().expect("tries");
+            let mut st: u64 = args.get(4).and_then(|s| s.parse().ok()).unwrap_or(1);
+            let mut next = move || {
+                st = st.wrapping_add(0x9E37_79B9_7F4A_7C15);
+                let mut z = st;
+                z = (z ^ (z >> 30)).wrapping_mul(0xBF58_476D_1CE4_E5B9);
+                z = (z ^ (z >> 27)).wrapping_mul(0x94D0_49BB_1331_11EB);
+                z ^ (z >> 31)
+            };
+            fn egcd(a: i64, b: i64) -> (i64, i64, i64) {
+                if b == 0 { (a, 1, 0) } else { let (g, x, y) = egcd(b, a % b); (g, y, x - (a / b) * y) }
+            }
+            let mut hits = 0u64;
+            let mut best: Option<i64> = None;
+            for _ in 0..n {
+                let r = |m: i64, x: u64| (x % (2 * m as u64 + 1)) as i64 - m;
+                let um = (max / 4).max(2);
+                let (ux, uy) = (r(um, next()), r(um, next()));
+                if ux == 0 || uy == 0 { continue; }
+                let (g, x, y) = egcd(ux, uy);
+                if g.abs() != 1 { continue; }
+                // ux * x + uy * y = g  =>  cross(u, w) = ux * wy - uy * wx with w = (-y, x) is g
+                let w = (-y * g, x * g);
+                let k = 2 + (next() % 2) as i64;
+                let b = (r(max, next()), r(max, next()));
+                let c = (b.0 + ux, b.1 + uy);
+                let d = (b.0 + k * ux + w.0, b.1 + k * uy + w.1);
+                if [b, c, d].iter().any(|p| p.0.abs() > max || p.1.abs() > max) { continue; }
+                let pts: Vec<PathControlPoint> = [b, c, d]
+                    .iter()
+                    .enumerate()
+                    .map(|(i, p)| PathControlPoint { pos: Pos::new(p.0 as f32, p.1 as f32), path_type: (i == 0).then_some(PathType::PERFECT_CURVE) })
+                    .collect();
+                let curve = Curve::new(MapMode::Catch, &pts, Some(100.0), &mut CurveBuffers::default());
+                if curve.path().iter().any(|p| !p.x.is_finite() || !p.y.is_finite()) || !curve.dist().is_finite() {
+                    hits += 1;
+                    let mag = [b, c, d].iter().map(|p| p.0.abs().max(p.1.abs())).max().unwrap_or(0);
+                    if best.is_none_or(|m| mag < m) {
+                        best = Some(mag);
+                        println!("hit: magnitude {mag} points {:?} dist {}", [b, c, d], curve.dist());
+                    }
+                }
+            }
+            println!("{hits} non-finite arcs in {n} tries (max coordinate {max})");
         }
         Some("zigzag") => {
             // n-point bezier alternating between (-amp, -amp) and (amp, amp): the largest second
